@@ -28,6 +28,7 @@ const (
 	custErr2 = slog.Level(24) // registered with the error device only (no treated-as level)
 	custNeg  = slog.Level(-7) // negative value, error device only
 	custPln  = slog.Level(25) // registered without any option
+	custLate = slog.Level(26) // registered for the error device IN THE MIDDLE of a history (step "register"): unregistered before
 )
 
 // Step is one operation of a generated history. JSON-encodable so that the
@@ -53,6 +54,8 @@ func (s Step) String() string {
 			return fmt.Sprintf("L%d=L%d.%s(..)(then=%v)", s.Logger, s.Parent, s.Via, s.AsOpt)
 		}
 		return fmt.Sprintf("L%d=new(parent=%d,opts=%v)", s.Logger, s.Parent, s.AsOpt)
+	case "register":
+		return fmt.Sprintf("RegisterLevel(%d, error device)", int(custLate))
 	case "probe":
 		if s.Blank {
 			return fmt.Sprintf("L%d.blankPrintln()", s.Logger)
@@ -239,6 +242,8 @@ func interp(script []Step, skipUngiven bool) (obs []Obs) {
 				} else {
 					loggers[s.Logger] = loggers[s.Parent].New(args...)
 				}
+			case "register":
+				_ = slog.RegisterLevel(custLate, "custlate", slog.RegWithPrintToErrorDevice(true))
 			case "probe":
 				if skipUngiven && !given[s.Logger] {
 					o.Skip = true
@@ -349,11 +354,14 @@ func (m *wset) dest(level int) []int {
 	if l := m.leveled[level]; len(l) > 0 {
 		return l
 	}
-	if errorClass[level] {
+	if errorClass[level] || (level == int(custLate) && lateRegistered) {
 		return m.errw
 	}
 	return m.normal
 }
+
+// lateRegistered: the walk over a history has passed its "register" step (custLate counts as error class from there on).
+var lateRegistered bool
 
 func count(l []int, w int) (n int) {
 	for _, x := range l {
@@ -379,6 +387,8 @@ func verify(t vlib.TB, script []Step, obs []Obs, stdCount func(n int, tok string
 	labels = map[string]bool{}
 	models := map[int]*wset{}
 	given := map[int]bool{}
+	lateRegistered = false
+	defer func() { lateRegistered = false }()
 	hist := func(n int) string {
 		var parts []string
 		for _, s := range script[:n+1] {
@@ -393,6 +403,9 @@ func verify(t vlib.TB, script []Step, obs []Obs, stdCount func(n int, tok string
 			return
 		}
 		switch s.Op {
+		case "register":
+			lateRegistered = true
+			labels["level-registered-after-records"] = true
 		case "new":
 			models[s.Logger] = newWset()
 			for _, os := range s.AsOpt {
@@ -500,7 +513,7 @@ var writerOps = []string{"SetWriter", "AddWriter", "RemoveWriter", "SetErrorWrit
 var optionOps = []string{"SetWriter", "AddWriter", "SetErrorWriter", "AddErrorWriter", "AddLevelWriter", "RemoveLevelWriter",
 	"ResetLevelWriter", "ResetLevelWriters", "ResetWriters"}
 
-var probeLevels = []int{0, 1, 2, 3, 4, 5, 6, 7, 8, 9, 10, 11, int(custErr), int(custStd), int(custRaw), int(custErr2), int(custNeg), int(custPln)}
+var probeLevels = []int{0, 1, 2, 3, 4, 5, 6, 7, 8, 9, 10, 11, int(custErr), int(custStd), int(custRaw), int(custErr2), int(custNeg), int(custPln), int(custLate)}
 var levelWriterLevels = []int{int(slog.ErrorLevel), int(slog.InfoLevel), int(slog.WarnLevel), int(slog.DebugLevel), int(slog.OKLevel), int(slog.FailLevel), int(custErr), int(custStd), int(custRaw), int(slog.OffLevel)}
 
 // genScript draws a history. Removes are only drawn for writers that occur at most
@@ -534,7 +547,25 @@ func genScript(t *rapid.T, maxLoggers, maxSteps int) []Step {
 	}
 	newLogger()
 	n := rapid.IntRange(1, maxSteps).Draw(t, "steps")
+	lateDone := false
+	var givenGen []int // loggers that were given a writer by some step so far
+	for i, st := range script {
+		if len(st.AsOpt) > 0 {
+			givenGen = append(givenGen, i)
+		}
+	}
 	for i := 0; i < n; i++ {
+		if !lateDone && rapid.IntRange(0, 11).Draw(t, "registerALevelNow") == 0 {
+			// a level is registered for the error device while loggers have records behind them: a record at it goes to
+			// the normal writers before and to the error writers after, on every logger
+			lg := rapid.IntRange(0, nLoggers-1).Draw(t, "logger")
+			if len(givenGen) > 0 && rapid.IntRange(0, 3).Draw(t, "onALoggerWithWritersOfItsOwn") != 0 {
+				lg = givenGen[rapid.IntRange(0, len(givenGen)-1).Draw(t, "givenLogger")] // in-process probes of loggers still on the standard streams are skipped
+			}
+			script = append(script, Step{Op: "probe", Logger: lg, Level: int(custLate)}, Step{Op: "register"}, Step{Op: "probe", Logger: lg, Level: int(custLate)})
+			lateDone = true
+			continue
+		}
 		switch k := rapid.IntRange(0, 9).Draw(t, "what"); {
 		case k == 0 && nLoggers < maxLoggers:
 			newLogger()
@@ -558,6 +589,9 @@ func genScript(t *rapid.T, maxLoggers, maxSteps int) []Step {
 				}
 				script = append(script, s)
 				models[lg].apply(s)
+				if !strings.HasPrefix(s.Op, "Remove") && !strings.HasPrefix(s.Op, "Reset") {
+					givenGen = append(givenGen, lg)
+				}
 				if sandwich {
 					script = append(script, Step{Op: "probe", Logger: lg, Level: sev})
 				}
